@@ -457,11 +457,62 @@ def run_gpg(desc):
         harness.rmtree(d)
 
 
+def check_framework_text(text):
+    """Safety invariants of the signed-message framework on arbitrary text
+    (recording stub backend)."""
+
+    class Stub:
+        handed = None
+
+        def verify_file(self, f):
+            self.handed = f.read()
+            return 'SIG'
+    stub = Stub()
+    m = ManifestFile()
+    try:
+        m.load(io.StringIO(text), verify_openpgp=True, openpgp_env=stub)
+    except (ManifestSyntaxError, ManifestUnsignedData):
+        return ok(nontrivial='-----' in text)
+    except Exception as e:
+        return violation(f'text {text!r}: ' + buckets.describe(e),
+                         sig='exc:' + buckets.signature(e))
+    lines = text.split('\n')
+    S = '-----BEGIN PGP SIGNED MESSAGE-----'
+    N = '-----END PGP SIGNATURE-----'
+    if m.openpgp_signed:
+        if stub.handed is None:
+            return violation(f'text {text!r}: signed without verification',
+                             sig='signed-without-verification')
+        if stub.handed not in text or not stub.handed.startswith(S + '\n') \
+                or not stub.handed.rstrip('\n').endswith(N):
+            return violation(
+                f'text {text!r}: handed {stub.handed!r} is not the signed '
+                f'message span', sig='handed-text-wrong')
+        outside = text.replace(stub.handed, '', 1)
+        if outside.strip():
+            return violation(
+                f'text {text!r}: non-blank content outside the verified span '
+                f'accepted', sig='content-outside-span')
+    elif any(ln.startswith('-----') and ln.rstrip().endswith('-----')
+             for ln in lines):
+        return violation(f'text {text!r}: armor line in a Manifest accepted '
+                         f'as unsigned', sig='armor-in-unsigned')
+    return ok(nontrivial=m.openpgp_signed)
+
+
+
+import fuzzpart  # noqa: E402
+
 PARTS = [
     Part('sequences', run_sequence, enumerate=enum_sequences,
          exhaustive=True, budget={'quick': 150, 'thorough': 1500}),
     Part('gpg', run_gpg, strategy=strat_gpg,
          examples={'quick': 6000, 'thorough': 80000},
+         budget={'quick': 60, 'thorough': 900}),
+    # coverage-guided supplement (atheris/libFuzzer), invariants in-target
+    Part('atheris', fuzzpart.run_campaign('c04', check_framework_text),
+         enumerate=fuzzpart.enum_campaigns({'quick': 30000,
+                                            'thorough': 2000000}),
          budget={'quick': 60, 'thorough': 900}),
 ]
 
